@@ -16,6 +16,9 @@ TRIVIAL_SIGS = ()
 CASE_TIMEOUT = 10.0
 
 def cases(tier, rng):
+    # deep nesting: the interpreter's recursion limit is a runtime effect outside the model (known finding F18)
+    for s in ['{' * 200 + '}' * 200, '$' + '{' * 180 + 'x' + '}' * 180 + '$', '\\emph{' * 150 + '}' * 150]:
+        yield {'tol': True, 'ctx': 'default', 's': s, 'deep': True}
     for c in parseprops.base_cases(tier, rng, tol_only=True):
         yield c
     import docgen
@@ -30,7 +33,10 @@ def cases(tier, rng):
             yield {'tol': True, 'ctx': ctx, 's': s + g}
             yield {'tol': True, 'ctx': ctx, 's': s + g + ' ' + rng.choice(garbage) + 'x'}
 
-to_line = parsecase.to_line
+def to_line(c):
+    if c.get('deep'):
+        return None
+    return parsecase.to_line(c)
 
 def run_impl(c):
     from pylatexenc.latexnodes import nodes as N
